@@ -604,6 +604,18 @@ def check_value(ctx, rng, spec, value, thorough_gaps):
         ctx.report(mech, f'encoding a legal assignment raised {e!r}', w)
         return
     ctx.event('encoded')
+    # a model object is an ordinary Python object: a deep copy of it (and a pickled / unpickled one, where the class can be pickled)
+    # is the same model
+    try:
+        import copy as _copy
+        m_copy = _copy.deepcopy(m)
+        if bytes(m_copy.encode()) != wire:
+            ctx.report('copy-encodes-differently:deepcopy', 'copy.deepcopy(model).encode() differs from model.encode()', w)
+        ctx.event('deep-copy-encoded')
+    except TypeError:
+        ctx.event('deep-copy-not-possible-for-these-values')      # (memoryview values cannot be copied by Python itself)
+    except Exception as e:   # noqa
+        ctx.report(f'copy-raises:deepcopy:{type(e).__name__}@{raising_site(e)[0]}', f'{e!r}', w)
     if announced != len(wire):
         ctx.report('announced-length-differs', f'encoded_length()={announced} but encode() produced {len(wire)} bytes', w)
     if wire != ref or fresh != ref:
@@ -946,7 +958,7 @@ def run(ctx):
     if ctx.shard == 0:
         check_one_shot_names(ctx, rng)
         ctx.need_event('name-field-given-a-one-shot-iterator')
-    for k_ in ('recognised-noncritical-element-out-of-place-accepted', 'decoded-again-after-editing-the-first-result', 'encoded-again-after-an-in-place-edit', 'lenient-decode-before-the-strict-one'):
+    for k_ in ('deep-copy-encoded', 'recognised-noncritical-element-out-of-place-accepted', 'decoded-again-after-editing-the-first-result', 'encoded-again-after-an-in-place-edit', 'lenient-decode-before-the-strict-one'):
         ctx.need_event(k_)
     ctx.assumptions = ['critical = odd type', 'BoolField False == absent', 'a field with a default is either left unassigned (default encoded) or explicitly set to None (omitted)',
                        'name fields use type 7 only; type numbers are distinct within one model (unambiguous decoding)']
